@@ -489,7 +489,7 @@ def defuse(rc):
     _sh.defuse_rule(rc, _sh.anchor_files("C18"))
 
 MUTANTS = [
-    dict(kind="repair", name="minimal-imap-falls-back-to-all-predecessors", file=JPD,
+    dict(kind="repair", name="minimal-imap-falls-back-to-all-predecessors", file=JPD, gone="C18.imap",
          old="                    G.add_edges_from(\n                        [(variable, order[variable_index]) for variable in subset]\n                    )\n        return G",
          new="                    G.add_edges_from(\n                        [(variable, order[variable_index]) for variable in subset]\n                    )\n                    separated = True\n            if not separated:\n                G.add_edges_from([(variable, order[variable_index]) for variable in u])\n        return G"),
     dict(kind="break", name="minimal-imap-conditions-on-the-removed-set", file=JPD, expect="C18.imap",
